@@ -659,7 +659,7 @@ pub fn replica_state(rep: &Replica, opts: &KeyOpts) -> Value {
         for uuid in m.get_all_objects() {
             let t = m.verif_dump_tree(&uuid);
             trees.insert(uuid.clone(), json!(t));
-            derived.insert(uuid.clone(), json!([m.get_winner(&uuid).ok(), m.verif_leafs(&uuid)]));
+            derived.insert(uuid.clone(), json!([m.get_winner(&uuid).ok(), m.verif_leafs(&uuid), m.verif_tree_has_staging(&uuid)]));
         }
         let stage = m.verif_stage_keys();
         let mut v = json!({
@@ -669,6 +669,9 @@ pub fn replica_state(rep: &Replica, opts: &KeyOpts) -> Value {
             "stage": stage,
             "deltas": m.verif_delta_status(),
             "packs": m.verif_applied_packs(),
+            // digests the pack index claims to hold (set only: the location of a digest stored in two packs
+            // legitimately depends on arrival order)
+            "indexed": m.verif_committed_objects().keys().cloned().collect::<Vec<_>>(),
         });
         if opts.caches {
             // sorted: the recency order only matters for eviction and depends on the
